@@ -300,6 +300,8 @@ def _pure_value(e: ast.expr) -> bool:
         return _pure_value(e.value)
     if isinstance(e, (ast.Tuple, ast.List)):
         return all(_pure_value(v) for v in e.elts)
+    if isinstance(e, ast.Call) and isinstance(e.func, ast.Name) and e.func.id in ("str", "repr") and len(e.args) == 1 and not e.keywords:
+        return _pure_value(e.args[0])
     if isinstance(e, ast.Call) and isinstance(e.func, ast.Attribute) and e.func.attr in ("format", "join") and isinstance(e.func.value, ast.Constant) \
             and isinstance(e.func.value.value, str):
         return all(_pure_value(a) for a in e.args) and all(k.arg is not None and _pure_value(k.value) for k in e.keywords)
@@ -530,7 +532,40 @@ class Inliner:
         for st in fn.body:
             if isinstance(st, ast.FunctionDef):
                 self._process(st, fq + "." + st.name, cls)
+        self._inline_new_properties(fn, cls)
         self._block(fn.body, fn, fq, cls)
+
+    def _inline_new_properties(self, fn: ast.FunctionDef, cls: Optional[ast.ClassDef]):
+        """`self.<p>` where <p> is a @property of this class that the reference tree does not have and whose body is a
+        single `return <expr>`: the expression is read in place (a property somebody introduced to name a condition)."""
+        if cls is None:
+            return
+        props: Dict[str, ast.expr] = {}
+        for m in cls.body:
+            if isinstance(m, ast.FunctionDef) and m is not fn and [ast.unparse(d) for d in m.decorator_list] == ["property"] \
+                    and self.unknown("%s.%s.%s" % (self.mod, cls.name, m.name)) and len(m.args.args) == 1:
+                e = self._single_expr(m)
+                if e is not None and m.args.args[0].arg == "self":
+                    props[m.name] = e
+        if not props:
+            return
+        inl = self
+
+        class T(ast.NodeTransformer):
+            def visit_Attribute(self, n):
+                self.generic_visit(n)
+                if isinstance(n.ctx, ast.Load) and isinstance(n.value, ast.Name) and n.value.id == "self" and n.attr in props:
+                    inl.count += 1
+                    inl.inlined.add("%s.%s.%s" % (inl.mod, cls.name, n.attr))
+                    return ast.copy_location(copy.deepcopy(props[n.attr]), n)
+                return n
+
+            def visit_FunctionDef(self, n):
+                return n
+
+            def visit_Lambda(self, n):
+                return n
+        fn.body = [T().visit(b) if not isinstance(b, ast.FunctionDef) else b for b in fn.body]
 
     def _block(self, stmts: List[ast.stmt], fn, fq, cls):
         i = 0
@@ -617,6 +652,14 @@ class Inliner:
                         setattr(st, slot_, R().visit(getattr(st, slot_)))
                         self.inlined.add(cfq)
                         self.count += 1
+                        # `t = E; raise t` / `return t` with t used nowhere else is `raise E`: keep the expression in place
+                        last_ = pre[-1] if pre else None
+                        cur_ = getattr(st, slot_)
+                        if isinstance(last_, ast.Assign) and len(last_.targets) == 1 and isinstance(last_.targets[0], ast.Name) and last_.targets[0].id == tmp \
+                                and isinstance(cur_, ast.Name) and cur_.id == tmp and isinstance(st, (ast.Raise, ast.Return)) \
+                                and sum(1 for s_ in pre for n_ in ast.walk(s_) if isinstance(n_, ast.Name) and n_.id == tmp) == 1:
+                            setattr(st, slot_, last_.value)
+                            pre = pre[:-1]
                         stmts[i:i] = pre
                         i += len(pre)
             for field in ("body", "orelse", "finalbody"):
@@ -987,15 +1030,32 @@ def class_private_fields(cls: ast.ClassDef) -> Tuple[Set[str], Set[str]]:
     return stored, mentioned
 
 
-def load_known_fields() -> Optional[Dict[str, Set[str]]]:
+def init_values(cls: ast.ClassDef) -> Dict[str, str]:
+    """private field -> text of the value `__init__` first assigns to it (top-level statements of __init__ only)."""
+    out: Dict[str, str] = {}
+    for m in cls.body:
+        if isinstance(m, ast.FunctionDef) and m.name == "__init__":
+            for st in m.body:
+                tg, val = None, None
+                if isinstance(st, ast.Assign) and len(st.targets) == 1:
+                    tg, val = st.targets[0], st.value
+                elif isinstance(st, ast.AnnAssign) and st.value is not None:
+                    tg, val = st.target, st.value
+                if isinstance(tg, ast.Attribute) and isinstance(tg.value, ast.Name) and tg.value.id == "self" and tg.attr not in out:
+                    out[tg.attr] = ast.unparse(val)
+    return out
+
+
+def load_known_fields() -> Optional[Dict[str, Dict[str, str]]]:
     global _known_fields
     if _known_fields is None and KNOWN_FIELDS_FILE.exists():
         _known_fields = {}
         for l in KNOWN_FIELDS_FILE.read_text().splitlines():
-            l = l.strip()
-            if l and not l.startswith("#"):
-                c, f_ = l.rsplit(".", 1)
-                _known_fields.setdefault(c, set()).add(f_)
+            l = l.rstrip("\n")
+            if l.strip() and not l.startswith("#"):
+                name, _, init = l.partition("\t")
+                c, f_ = name.strip().rsplit(".", 1)
+                _known_fields.setdefault(c, {})[f_] = init.strip()
     return _known_fields
 
 
@@ -1015,20 +1075,33 @@ def restore_renamed_fields(module_name: str, tree: ast.Module) -> int:
         if not ref:
             continue
         stored, mentioned = class_private_fields(cls)
-        missing = sorted(ref - mentioned)
-        new = sorted(stored - ref)
-        if len(missing) != 1 or len(new) != 1:
+        missing = sorted(set(ref) - mentioned)
+        new = sorted(stored - set(ref))
+        if not missing or len(missing) != len(new):
             continue
-        old_name, new_name = missing[0], new[0]
-        # the name must not be used on other receivers in this module (a private attribute is the class's own)
-        elsewhere = [x for x in ast.walk(tree) if isinstance(x, ast.Attribute) and x.attr == new_name
-                     and not (isinstance(x.value, ast.Name) and x.value.id == "self")]
-        if elsewhere:
-            continue
-        for x in ast.walk(cls):
-            if isinstance(x, ast.Attribute) and x.attr == new_name and isinstance(x.value, ast.Name) and x.value.id == "self":
-                x.attr = old_name
-                n += 1
+        pairs = []
+        if len(missing) == 1:
+            pairs = [(missing[0], new[0])]
+        else:
+            # several at once: paired by the value __init__ gives them, when that is unambiguous on both sides
+            cur_init = init_values(cls)
+            for o_ in missing:
+                cands = [n_ for n_ in new if cur_init.get(n_, "?") == ref[o_] and ref[o_] != ""]
+                same_ref = [m_ for m_ in missing if ref[m_] == ref[o_]]
+                if len(cands) == 1 and len(same_ref) == 1:
+                    pairs.append((o_, cands[0]))
+            if len(pairs) != len(missing):
+                continue
+        for old_name, new_name in pairs:
+            # the name must not be used on other receivers in this module (a private attribute is the class's own)
+            elsewhere = [x for x in ast.walk(tree) if isinstance(x, ast.Attribute) and x.attr == new_name
+                         and not (isinstance(x.value, ast.Name) and x.value.id == "self")]
+            if elsewhere:
+                continue
+            for x in ast.walk(cls):
+                if isinstance(x, ast.Attribute) and x.attr == new_name and isinstance(x.value, ast.Name) and x.value.id == "self":
+                    x.attr = old_name
+                    n += 1
     return n
 
 
@@ -1060,7 +1133,7 @@ def fold_new_constants(module_name: str, tree: ast.Module) -> int:
             tg, val = st.target.id, st.value
         if tg is not None:
             counts[tg] = counts.get(tg, 0) + 1
-            if "%s.%s" % (module_name, tg) not in kg and _literal(val):
+            if "%s.%s" % (module_name, tg) not in kg and (_literal(val) or (isinstance(val, ast.Attribute) and _dotted(val))):
                 consts[tg] = val
     consts = {k: v for k, v in consts.items() if counts.get(k) == 1}
     if not consts:
